@@ -309,3 +309,16 @@ Example C09_reconnect_ex :
   | None => False
   end.
 Proof. vm_compute. repeat split; reflexivity. Qed.
+
+(* ------------------------------------------------------------------------------------------------------------------
+   Bridge to the whole-daemon model (Proofs/DaemonCbuf.v): the client buffers of Model/Daemon.v (c->to and c->from,
+   cbuf_create(MIN_CLIENT_BUF, MAX_CLIENT_BUF), default policy) are written by Daemon.cbuf_put, which IS the write step of
+   the abstract queue of this file's refinement theorem with capacity MAX_CLIENT_BUF; its overflow flag (after which the
+   daemon-level stream theorem C15_daemon_streams stops speaking about that client) is "the queue dropped something". *)
+From PM Require Import Model.Daemon Proofs.DaemonCbuf.
+Theorem C09_client_buffers_are_cbufs : forall buf new,
+  cbuf_put buf new = (fifo_write MAX_CLIENT_BUF buf new, (0 <? fifo_dropped MAX_CLIENT_BUF buf new)%Z).
+Proof. exact cbuf_put_is_fifo_write. Qed.
+Print Assumptions C09_client_buffers_are_cbufs.
+Example C09_client_buffers_nonvacuous : cbuf_put [1; 2; 3]%N [4; 5]%N = ([1; 2; 3; 4; 5]%N, false).
+Proof. vm_compute. reflexivity. Qed.
